@@ -23,10 +23,8 @@ func init() {
 func authClosure(p *Prog, outer string) *ssa.Function {
 	f := p.Fn(outer)
 	var best *ssa.Function
-	for _, a := range f.AnonFuncs {
-		if a.Signature.Results().Len() == 3 {
-			best = a
-		}
+	for _, a := range literalsOrBoundMethods(f, func(s *types.Signature) bool { return s.Results().Len() == 3 }) {
+		best = a
 	}
 	if best == nil {
 		fatalf("anchor: %s has no authenticator closure", outer)
@@ -43,7 +41,7 @@ func callbackCall(f *ssa.Function) *ssa.Call {
 	}
 	isCallbackParam := func(o Origin) bool {
 		prm, ok := o.V.(*ssa.Parameter)
-		if !ok || prm.Parent() != outer {
+		if !ok || prm.Parent() == f || (outer != nil && prm.Parent() != outer) {
 			return false
 		}
 		_, isSig := prm.Type().Underlying().(*types.Signature)
@@ -103,7 +101,7 @@ func runC14(c *Ctx) {
 				ba := bas[0].(*ssa.Call)
 				okU, _ := allOrigins(cb.Call.Args[off], oIsValue(resultOf(ba, 0)))
 				okP, _ := allOrigins(cb.Call.Args[off+1], oIsValue(resultOf(ba, 1)))
-				okR, _ := allOrigins(ba.Call.Args[0], oIsValue(f.Params[0]))
+				okR, _ := allOrigins(ba.Call.Args[0], oIsValue(paramOfType(f, "*net/http.Request")))
 				credOK = okU && okP && okR
 				noCred = factBool(vIs(resultOf(ba, 2)), false)
 				c.obI("R14.1", cb, "callback-needs-credentials", guardedBy(cb, ba, factBool(vIs(resultOf(ba, 2)), true)), "the callback is consulted only when basic credentials are present", "")
@@ -125,20 +123,33 @@ func runC14(c *Ctx) {
 			// the getters read the configured name from the configured location
 			outer := p.Fn(v.outer)
 			nHdr, nQry := 0, 0
-			for _, a := range outer.AnonFuncs {
+			// (the getters may live in a helper shared by the plain and the Ctx constructor: the name is then the name
+			// parameter of either constructor)
+			isName := func(v ssa.Value) bool {
+				ok, _ := allOrigins(v, func(o Origin) bool {
+					for _, n := range []string{"rt/security.APIKeyAuth", "rt/security.APIKeyAuthCtx"} {
+						if o.V == ssa.Value(p.Fn(n).Params[0]) {
+							return true
+						}
+					}
+					return false
+				})
+				return ok
+			}
+			for _, a := range anonFuncsDeep(outer) {
 				if a.Signature.Results().Len() != 1 {
 					continue
 				}
 				for _, g := range callsIn(a, "(net/http.Header).Get") {
 					_, ga := callArgs(g.Common())
-					if isOuterParam(ga[0], outer, 0) {
+					if isName(ga[0]) {
 						nHdr++
 					}
 				}
 				for _, g := range callsIn(a, "(net/url.Values).Get") {
 					recv, ga := callArgs(g.Common())
 					okQ, _ := allOrigins(recv, oCall(-1, "(*net/url.URL).Query"))
-					if okQ && isOuterParam(ga[0], outer, 0) {
+					if okQ && isName(ga[0]) {
 						nQry++
 					}
 				}
@@ -304,9 +315,10 @@ func runC14(c *Ctx) {
 		elems, _ := sliceLitElems(a[1])
 		okV := false
 		if len(elems) == 1 {
-			if bo, ok := elems[0].(*ssa.BinOp); ok {
+			// (the header value may be computed once in the constructor and captured)
+			if bo, ok := resolve1(elems[0]).(*ssa.BinOp); ok {
 				pre, _ := constString(bo.X)
-				enc := asCall(bo.Y)
+				enc := asCall(resolve1(bo.Y))
 				if pre == "Basic " && enc != nil && calleeName(&enc.Call) == "(*encoding/base64.Encoding).EncodeToString" {
 					recv, ea := callArgs(&enc.Call)
 					isStd := false
@@ -334,7 +346,7 @@ func runC14(c *Ctx) {
 		elems, _ := sliceLitElems(a[1])
 		okV := false
 		if len(elems) == 1 {
-			if bo, ok := elems[0].(*ssa.BinOp); ok {
+			if bo, ok := resolve1(elems[0]).(*ssa.BinOp); ok {
 				pre, _ := constString(bo.X)
 				okV = pre == "Bearer " && isOuterParam(bo.Y, p.Fn("rt/client.BearerToken"), 0)
 			}
@@ -438,7 +450,7 @@ func runC14(c *Ctx) {
 
 func siblingGetters(outer *ssa.Function) []*ssa.Function {
 	var out []*ssa.Function
-	for _, a := range outer.AnonFuncs {
+	for _, a := range anonFuncsDeep(outer) { // (also the getters built by a helper the constructor calls)
 		if a.Signature.Results().Len() == 1 {
 			out = append(out, a)
 		}
@@ -523,4 +535,14 @@ func isOuterParam(v ssa.Value, outer *ssa.Function, idx int) bool {
 	}
 	ok, _ := allOrigins(v, oIsValue(outer.Params[idx]))
 	return ok
+}
+
+// resolve1 follows a value to its single origin (through captured variables, locals and conversions); a value with
+// several origins is returned as it is.
+func resolve1(v ssa.Value) ssa.Value {
+	os := originsOf(v)
+	if len(os) == 1 && os[0].Index < 0 {
+		return os[0].V
+	}
+	return v
 }
